@@ -133,6 +133,44 @@ func c09Body(r *simcore.Run) {
 				fl := files[r.Intn(len(files))]
 				off := fl.base + int64(r.Intn(int(fl.size-fl.base)))
 				bit := r.Intn(8)
+				if r.Pct(30) {
+					// aimed at the fields next to an entry's key in the tx log (value length
+					// and offset, which no digest covers, and the value digest), half of the
+					// time at a bit that is set: a flip there can zero a small field
+					id := 1 + uint64(r.Intn(int(n)))
+					if lt := e.led[id]; lt != nil && len(lt.Entries) > 0 {
+						le := lt.Entries[r.Intn(len(lt.Entries))]
+						pat := append([]byte{byte(len(le.Key) >> 8), byte(len(le.Key))}, le.Key...)
+						for _, cand := range files {
+							if !strings.HasPrefix(cand.rel, "tx"+string(filepath.Separator)) {
+								continue
+							}
+							bs, err := os.ReadFile(filepath.Join(dst, cand.rel))
+							if err != nil {
+								continue
+							}
+							if at := bytes.Index(bs[cand.base:], pat); at >= 0 {
+								field := cand.base + int64(at+len(pat)) // entry: metadata, key, then value length (4), offset (8), digest (32)
+								// not the two high bytes of the length: a length of gigabytes makes
+								// the reader allocate that much before it can notice (see the note
+								// of this check), which only slows the simulation down
+								o := field + 2 + int64(r.Intn(10))
+								if o < cand.size {
+									fl, off = cand, o
+									if r.Bool() {
+										for b := 0; b < 8; b++ {
+											if bs[o]&(1<<uint(b)) != 0 {
+												bit = b
+											}
+										}
+									}
+									r.Probe("c09-flip-aimed-at-entry-fields")
+								}
+								break
+							}
+						}
+					}
+				}
 				p := filepath.Join(dst, fl.rel)
 				bs, err := os.ReadFile(p)
 				r.Must(err, "read file")
@@ -153,6 +191,10 @@ func c09Body(r *simcore.Run) {
 	}
 	r.Sample(map[string]interface{}{"config": cfg, "transactions": n, "cases": samples})
 }
+
+// c09HugeLen: value lengths above it are not handed to the readers (they allocate the
+// claimed length first; at gigabytes that takes real seconds and only stalls the run).
+const c09HugeLen = 64 << 20
 
 // c09Probe opens the (corrupted) copy and runs every integrity-checked read.
 func c09Probe(r *simcore.Run, e *storeEnv, dst, what string, n uint64, exports map[uint64][]byte, live bool) {
@@ -260,6 +302,13 @@ func c09Probe(r *simcore.Run, e *storeEnv, dst, what string, n uint64, exports m
 		checkTx("ReadTx", id, tx)
 		for i, te := range tx.Entries() {
 			var val []byte
+			if te.VLen() > c09HugeLen {
+				// an altered length of hundreds of megabytes: the reader would allocate
+				// that much before it can fail (the files hold a few kilobytes); the wrong
+				// length itself is already reported by the ReadTx comparison above
+				r.Probe("c09-huge-length-not-read")
+				continue
+			}
 			pv, stack := r.Catch(func() { val, err = st.ReadValue(te) })
 			if pv != nil {
 				r.Violation("panic", "", "%sReadValue(tx %d entry %d) panicked: %v\n%s", what, id, i, pv, stack)
@@ -275,6 +324,14 @@ func c09Probe(r *simcore.Run, e *storeEnv, dst, what string, n uint64, exports m
 			if !bytes.Equal(val, lt.Entries[i].Value) {
 				served("ReadValue", id, "entry %d (%q) returned %q, committed %q", i, lt.Entries[i].Key, trunc(val), trunc(lt.Entries[i].Value))
 			}
+		}
+		hugeLen := false
+		for _, te := range tx.Entries() {
+			hugeLen = hugeLen || te.VLen() > c09HugeLen
+		}
+		if hugeLen {
+			r.Probe("c09-huge-length-not-read")
+			continue // ExportTx would allocate the claimed length first, like ReadValue
 		}
 		var bs []byte
 		pv, stack = r.Catch(func() { bs, err = st.ExportTx(id, false, false, tx) })
@@ -362,6 +419,10 @@ func c09Probe(r *simcore.Run, e *storeEnv, dst, what string, n uint64, exports m
 			r.Violation("corrupted-data-served", "", "%sGet(%q) returned a version of tx %d, which holds no entry for that key", what, k, ref.Tx())
 		}
 		var val []byte
+		if ref.Len() > c09HugeLen {
+			r.Probe("c09-huge-length-not-read")
+			continue
+		}
 		pv, stack = r.Catch(func() { val, err = ref.Resolve() })
 		if pv != nil {
 			r.Violation("panic", "", "%sResolve(%q) panicked: %v\n%s", what, k, pv, stack)
